@@ -134,7 +134,9 @@ func c13Gen(r *rand.Rand, tier string, idx int) []string {
 		}
 		bs = append(bs, ev...)
 	}
+	honest := mutIdx == -1
 	if r.Intn(10) == 0 { // pure garbage tail
+		honest = false
 		k := r.Intn(24)
 		for i := 0; i < k; i++ {
 			bs = append(bs, byte(r.Intn(256)))
@@ -159,6 +161,10 @@ func c13Gen(r *rand.Rand, tier string, idx int) []string {
 		}
 		ops = append(ops, "feed "+hex.EncodeToString(bs[:k]))
 		bs = bs[k:]
+	}
+	if honest {
+		// only complete events from the real encoders were sent: nothing may be left waiting for more bytes
+		ops = append(ops, "honest")
 	}
 	// handshake metadata bodies
 	if r.Intn(3) == 0 {
@@ -332,6 +338,15 @@ func c13Exec(ops []string) (res vResult) {
 				}
 			}
 			out = append(out, c.summary())
+		case f[0] == "honest" && len(f) == 1:
+			// S (C13 / C11): well-formed events take effect. After a sequence of COMPLETE events of the real encoders a live
+			// session has consumed everything: an event left lying takes effect only when unrelated bytes happen to arrive (a
+			// stream close: its reader waits for ever)
+			if c.s != nil && !c.s.IsClosed() && len(c.win) > 0 {
+				c.setFail("complete-event-not-consumed", fmt.Sprintf("only complete, well-formed events were sent, yet %d byte(s) stay unhandled in the read buffer of a live session (next header: % x)", len(c.win), c.win[:vMin(len(c.win), headerSize)]))
+			}
+			c.tags["only-complete-events"] = true
+			out = append(out, "ok")
 		case f[0] == "meta" && len(f) <= 2:
 			var body []byte
 			if len(f) == 2 {
@@ -411,4 +426,11 @@ func c13Exec(ops []string) (res vResult) {
 		tags = append(tags, "streams")
 	}
 	return vResult{out: out, specFail: c.fail, key: c.key, tags: tags}
+}
+
+func vMin(a, b int) int {
+	if a < b {
+		return a
+	}
+	return b
 }
